@@ -168,3 +168,29 @@ Proof.
   - eapply ro_trans; [apply (ro_swap [] [] "a" "b" ["c"]); [apply N|apply N|apply T]|].
     apply (ro_swap [] ["b"] "a" "c" []); [apply N|apply N|apply T].
 Qed.
+
+(* every two orders in which no child is fed by a later one, over the same children, are connected by swaps of neighbouring
+   independent children (provided no port is fed by two different children) *)
+Theorem C09_topological_orders_connected : forall conns l' l,
+  (forall a b, a <> b -> targets_apart conns a b) ->
+  NoDup l -> Permutation l l' -> ordered conns l -> ordered conns l' -> reorder conns l l'.
+Proof. exact topological_orders_connected. Qed.
+Print Assumptions C09_topological_orders_connected.
+
+(* ... the compiler's own processing order (Kahn's algorithm over the children as listed) is such an order, so: however the
+   children are LISTED, the loop over the children gives the same compiled children (as a multiset, up to the listing of
+   their stored inputs) and a parameter map holding the same value under every key *)
+Theorem C09_children_listing_free :
+  forall (D : Type) (ev : list (string * D) -> expr -> result D) (statusD : D -> D -> cstatus) (fvD : D -> list string),
+    (forall env env' e, (forall k, lookup k env = lookup k env') -> ev env e = ev env' e) ->
+    forall fuel children children' conns order order',
+      Permutation children children' -> NoDup (map rname children) ->
+      (forall a b, a <> b -> targets_apart conns a b) ->
+      children_order children conns = Some order -> children_order children' conns = Some order' ->
+      reorder conns order order' /\
+      forall chs pm acc pm1 kids,
+        compile_children (go ev statusD fvD fuel) order chs conns pm acc = Ok (pm1, kids) ->
+        exists pm2 kids2, compile_children (go ev statusD fvD fuel) order' chs conns pm acc = Ok (pm2, kids2)
+                          /\ pm_rel D pm1 pm2 /\ kids_equiv D kids kids2.
+Proof. exact children_listing_free. Qed.
+Print Assumptions C09_children_listing_free.
